@@ -173,8 +173,8 @@ def cancelInner (s : State) (now : Nat) : State :=
   let s := match s.cfg.mode with
     | .Acknowledged => prepareFinished s none
     | .Unacknowledged =>
-      let s := if closureRequested s then prepareFinished s none else s
-      shutdown s now
+      -- with closure the transaction stays alive to send the Finished PDU
+      if closureRequested s then prepareFinished s none else shutdown s now
   emit s (.finished s.condition s.delivery s.fileStatus s.state s.status [])
 
 /-- `cancel` -/
